@@ -184,7 +184,7 @@ func c07Passes(tier string) []c07Pass {
 		{t, 2, 3, 3, [][2]int{{0, 0}, {1, 1}}},
 		{t, 1, 3, 4, [][2]int{{0, 0}, {1, 1}}},
 		{t2, 2, 1, 3, [][2]int{{0, 0}, {1, 1}, {2, 0}}},
-		{q3, 3, 1, 3, [][2]int{{0, 0}, {0, 1}, {1, 1}, {1, 0}}},
+		{q3, 2, 1, 3, [][2]int{{0, 0}, {0, 1}, {1, 1}, {1, 0}}},
 	}
 }
 
